@@ -692,6 +692,25 @@ pub fn overlap_input(rng: &mut Rng) -> Vec<u64> {
     v
 }
 
+/// a particular arrangement of an input list: as generated, shuffled, numerically ascending (with or without
+/// duplicates) or descending
+pub fn arranged(rng: &mut Rng, mut a: Vec<u64>) -> Vec<u64> {
+    match rng.below(6) {
+        0 => a.sort_unstable(),
+        1 => {
+            a.sort_unstable();
+            a.dedup();
+        }
+        2 => {
+            a.sort_unstable();
+            a.reverse();
+        }
+        3 => rng.shuffle(&mut a),
+        _ => {}
+    }
+    a
+}
+
 pub fn cases_c08(rng: &mut Rng, thorough: bool) -> Vec<Case> {
     let mut v = Vec::new();
     let n = if thorough { 1500 } else { 250 };
@@ -715,10 +734,25 @@ pub fn cases_c08(rng: &mut Rng, thorough: bool) -> Vec<Case> {
     x.extend(&base);
     v.push(Case::compact(x));
     for _ in 0..n {
-        v.push(Case::compact(compact_input(rng, thorough)));
+        let x = compact_input(rng, thorough);
+        v.push(Case::compact(arranged(rng, x)));
     }
     for _ in 0..n {
-        v.push(Case::compact(overlap_input(rng)));
+        let x = overlap_input(rng);
+        v.push(Case::compact(arranged(rng, x)));
+    }
+    // base cells of some faces among quintants / finer cells of other faces, in particular arrangements
+    for _ in 0..n / 2 {
+        let mut a: Vec<u64> = Vec::new();
+        for &b in &base {
+            match rng.below(5) {
+                0 => a.push(b),
+                1 => a.extend(a5::cell_to_children(b, Some(1)).unwrap()),
+                2 => a.extend(a5::cell_to_children(b, Some(2)).unwrap()),
+                _ => {}
+            }
+        }
+        v.push(Case::compact(arranged(rng, a)));
     }
     // all permutations of small sets
     for _ in 0..(if thorough { 30 } else { 6 }) {
@@ -773,8 +807,22 @@ pub fn cases_c10(rng: &mut Rng, thorough: bool) -> Vec<Case> {
         if b.len() > 3000 {
             continue;
         }
-        v.push(Case::compact(a));
-        v.push(Case::compact(b));
+        v.push(Case::compact(arranged(rng, a)));
+        v.push(Case::compact(arranged(rng, b)));
+    }
+    // mixes of base cells, quintants and finer cells of several faces, in particular arrangements
+    let base = a5::get_res0_cells().unwrap();
+    for _ in 0..n / 2 {
+        let mut a: Vec<u64> = Vec::new();
+        for &b in &base {
+            match rng.below(5) {
+                0 => a.push(b),
+                1 => a.extend(a5::cell_to_children(b, Some(1)).unwrap()),
+                2 => a.extend(a5::cell_to_children(b, Some(2)).unwrap()),
+                _ => {}
+            }
+        }
+        v.push(Case::compact(arranged(rng, a)));
     }
     // idempotence: compact of a compacted result
     let more: Vec<Case> = v
